@@ -64,7 +64,7 @@ def gen_pair(rng, thorough=False, maxn=None):
     ks = sorted({1, 2, 3, 7, max(1, int(math.sqrt(n))), max(1, n // 2), n})
     fam = rng.choice(['indep', 'indep', 'zipf', 'constY', 'constX', 'distinctY', 'distinctX', 'self', 'perm', 'func',
                       'planted', 'singletons', 'sparse', 'equalsum', 'equalhist'])
-    if n > 2000 and rng.random() < 0.9:
+    if n > 5000 and rng.random() < 0.9:
         # the Lean model is quadratic in (#values x n): large vectors mostly with few values (a few high-cardinality ones remain)
         ks = [k for k in ks if k <= 64]
         if fam in ('distinctY', 'distinctX', 'singletons', 'sparse'):
